@@ -104,7 +104,7 @@ func Run(run *ev.Run) {
 	run.Rule("for every generated type and base value a: pool = {a, rebuilt copy (fresh maps), nil-for-empty copy, JSON round-tripped copy, every single-position mutation of a}; checks on every ordered pair of the pool: symmetry, Equals=>hash equality, " +
 		"copies Equal to a with equal hashes, mutants that change the abstract value not Equal to a, +0/-0 mutants Equal with equal hashes, reflexivity (NaN-free), transitivity on sampled triples; complex keys additionally with ComplexKeyEquals / ComputeComplexKeyHash; " +
 		"hash digests of a PRNG-determined value list compared between the parent and fresh child processes. distinct = distinct (type, mutation kind) pairs; non-trivial = pool holds at least one mutation")
-	run.Assume("Equals is only claimed for valid values (enum constants within range, unions with exactly one member)", "v2 generation only")
+	run.Assume("Equals is only claimed for valid values (enum constants within range, unions with exactly one member)", "both generations: the root module through types-only bindings written by its own generator from the same schema sets")
 	rng := rand.New(rand.NewSource(run.Seed + 10))
 	perType := run.Pick(40, 400)
 	for _, set := range all.Sets {
